@@ -569,7 +569,10 @@ class Renderer:
             return json_txt(lit, R, loose=False, sq=sq), None, ''
         if style == 'quoted':
             q = '"' if sq else ("'" if leaf['dt'] == 'str' else R.choice('\'"'))
-            return q + json_txt(lit, R, loose=True, sq=sq) + q, None, q
+            # with the single-quote trigger (also in its neutralised twin) the comment avoids both quote characters,
+            # so that the two texts differ in nothing but the quote characters of the array
+            avoid = '\'"' if path in self.triggers else q
+            return q + json_txt(lit, R, loose=True, sq=sq) + q, None, avoid
         txt = json_txt(lit, R, loose=R.random() < 0.5, sq=sq, nl=True)
         pad = ' ' * R.randint(0, 4)
         return None, [pad + l for l in txt.split('\n')], ''
